@@ -18,12 +18,15 @@ TReset == Ev("reset") /\ Setup(e.lm, e.mp)
 TWriter == Ev("writer") /\ NewWriter(e.pm) /\ res'.ret = e.ret
 TReader == Ev("reader") /\ NewReader /\ res'.ret = e.ret
 TSend == Ev("send") /\ Send(e.size) /\ res'.ret = e.ret
+\* the form (with / without length, padding) is the implementation's choice: the logged one must be LEGAL (Pack's guards)
 FrameMatches ==
     res'.ret = "ok" =>
-        /\ res'.f.withLen = e.withlen /\ res'.f.pad = e.pad /\ res'.f.size = e.size /\ res'.used = e.used
+        /\ res'.f.size = e.size /\ res'.used = e.used
         /\ (e.size > 0 => res'.f.id = e.id)
         /\ e.data_ok = TRUE /\ e.parsed_ok = TRUE /\ e.nframes = 1
-TPack == Ev("pack") /\ Pack(e.space) /\ res'.ret = e.ret /\ FrameMatches
+TPack == /\ Ev("pack")
+         /\ IF e.ret = "ok" THEN Pack(e.space, e.withlen, e.pad) ELSE Pack(e.space, FALSE, 0)
+         /\ res'.ret = e.ret /\ FrameMatches
 TLose == Ev("lose") /\ Lose(e.i)
 TDeliver == Ev("deliver") /\ Deliver /\ res'.ret = e.ret
 TInject == Ev("inject") /\ Inject(e.size, e.withlen) /\ res'.ret = e.ret
@@ -35,8 +38,8 @@ TConnErr == Ev("connerr") /\ ConnError
 TCSend == Ev("csend") /\ Send(e.size) /\ res'.ret = e.ret
 \* the assembler resolved the remaining space itself: any space that yields the observed form
 TCWire == /\ Ev("cwire")
-          /\ Pack(IF e.withlen THEN FSize(e.size, TRUE) ELSE e.size + 1)
-          /\ res'.ret = "ok" /\ res'.f.size = e.size /\ res'.f.withLen = e.withlen
+          /\ Pack(IF e.withlen THEN FSize(e.size, TRUE) ELSE e.size + 1, e.withlen, 0)
+          /\ res'.ret = "ok" /\ res'.f.size = e.size /\ e.fsize = FSize(e.size, e.withlen)
 \* the server application read a datagram: it is one that is in flight; everything sent before it and not
 \* read yet was lost (the network of the run only loses, it never reorders)
 TCRead == /\ Ev("cread") /\ e.data_ok = TRUE
@@ -58,7 +61,10 @@ TAbort == /\ Ev("abort") /\ res' = [op |-> "abort"]
 
 \* liveness clause on the recorded run: after the wait on an open, idle (uncongested) connection nothing that
 \* fits a packet is still waiting in the queue
-AcceptedEventuallyOnWire == (res.op = "final" /\ res.open) => ~SomeFits(queue)
+\* (the case of a head that fits no packet blocking the rest is deviation D2 and reported under its own name)
+HolCase == queue # <<>> /\ ~Fits(Head(queue).size) /\ SomeFits(queue)
+AcceptedEventuallyOnWire == (res.op = "final" /\ res.open /\ ~HolCase) => ~SomeFits(queue)
+HeadOfLineBlocked == (res.op = "final" /\ res.open) => ~HolCase
 
 \* properties the code is known / suspected not to satisfy are reported without stopping the validation
 Soft(name, P) == P \/ PrintT(<<"SOFT_VIOLATION", name, l>>)
@@ -66,6 +72,7 @@ SoftFrameWithinPeerMax == Soft("FrameWithinPeerMax", FrameWithinPeerMax)
 SoftFullPacketProgress == Soft("FullPacketProgress", FullPacketProgress)
 SoftAcceptedNeverKillsPeer == Soft("AcceptedNeverKillsPeer", AcceptedNeverKillsPeer)
 SoftAcceptedEventuallyOnWire == Soft("AcceptedEventuallyOnWire", AcceptedEventuallyOnWire)
+SoftHeadOfLineBlocked == Soft("HeadOfLineBlocked", HeadOfLineBlocked)
 
 TraceInit == l = 1 /\ Init
 TraceNext == TReset \/ TWriter \/ TReader \/ TSend \/ TPack \/ TLose \/ TDeliver \/ TInject \/ TRead \/ TConnErr
